@@ -334,10 +334,13 @@ CLI_CMDS = {
 
 def input_class(kind, label, data):
     """decidable class of an input: the generator's label for structured inputs, a predicate for mutants / raw bytes"""
-    if not label.startswith(("mut-", "raw")):
-        return re.sub(r"-\d+$", "", label)
-    if kind == "source" and data.rstrip().endswith(b"(") and nesting_depth(data) < 150:
-        return "open-paren-at-eof"
+    if not label.startswith(("mut-", "raw", "corpus-")):
+        base = re.sub(r"-\d+$", "", label)
+        return "open-delimiter-at-eof" if re.fullmatch(r"open-(paren|call|bracket)-at-eof", base) else base
+    if kind == "source" and data.rstrip().endswith((b"(", b"[")) and nesting_depth(data) < 150:
+        return "open-delimiter-at-eof"
+    if kind == "source" and re.search(rb"(reserve|repeat)\([^)]*\d{9,}", data):
+        return "huge-allocation-request"
     if kind == "source" and nesting_depth(data) >= 150:
         return "deep-nesting"
     if kind == "aasm" and re.search(rb"(?m)^\s*\d{7,}\s*:", data):
